@@ -203,9 +203,10 @@ func (p *Parser) parseDeclarationList() GrammarType {
 
 	// IE hack: *color:red;
 	if p.tt == DelimToken && p.data[0] == '*' {
-		tt, data := p.popToken(false)
-		p.tt = tt
-		p.data = append(p.data, data...)
+		if tt, data := p.popToken(false); tt != ErrorToken {
+			p.tt = tt
+			p.data = append(p.data, data...)
+		}
 	}
 
 	if p.tt == ErrorToken {
